@@ -174,7 +174,9 @@ Inductive sys :=
 | SOpenTrunc (p : path)               (* open(p, O_WRONLY|O_CREAT|O_TRUNC) *)
 | SWrite (p : path) (bs : str)        (* write(fd of p, bs) *)
 | SClose (p : path)
-| SRename (src dst : path).           (* rename(src, dst) *)
+| SRename (src dst : path)            (* rename(src, dst) *)
+| SWriteFail (p : path)               (* write(fd of p, ...) returning -1 (ENOSPC, EIO): nothing written *)
+| SUnlink (p : path).                 (* remove(p) *)
 
 (* One system call.  None = the call is impossible in this state (write to / close of a file that
    was never opened, rename of a missing file): a hazard outcome, proved unreachable for saves. *)
@@ -192,6 +194,8 @@ Definition fs_step (s : fs) (c : sys) : option fs :=
     | Some c => Some (fs_set dst (Some c) (fs_set src None s))
     | None => None
     end
+  | SWriteFail p => match fs_get p s with Some _ => Some s | None => None end
+  | SUnlink p => match fs_get p s with Some _ => Some (fs_set p None s) | None => None end
   end.
 
 Fixpoint fs_run (step : fs -> sys -> option fs) (script : list sys) (s : fs) : option fs :=
@@ -209,6 +213,23 @@ Definition save_script (m : pmap) : list sys := script_of_chunks (map save_line 
 Definition script_of_chunks_old (chunks : list str) : list sys :=
   [SOpenTrunc Conf] ++ map (SWrite Conf) chunks ++ [SClose Conf].
 Definition save_script_old (m : pmap) : list sys := script_of_chunks_old (map save_line m).
+
+(* SavePreferencesToFile when the stream goes bad: the writes in `body` (successful ones, possibly
+   short, and failing ones, in any order) are followed by close, and because pref_file.fail() the
+   temporary is removed and the rename is not attempted: the old file is kept. *)
+Definition tmp_write (c : sys) : bool :=
+  match c with SWrite Tmp _ | SWriteFail Tmp => true | _ => false end.
+Definition script_failed (body : list sys) : list sys :=
+  [SOpenTrunc Tmp] ++ body ++ [SClose Tmp; SUnlink Tmp].
+(* as the harness provokes it: every write from the k-th on (k >= 1) fails; libstdc++ then issues
+   one failing write per remaining std::endl and one for close() (observed, not relied upon by the
+   theorems, which take any body) *)
+Definition save_script_enospc (m : pmap) (k : nat) : list sys :=
+  let lines := map save_line m in
+  if (k <=? length lines)%nat && (1 <=? k)%nat then
+    script_failed (map (SWrite Tmp) (firstn (k - 1) lines) ++
+                   map (fun _ => SWriteFail Tmp) (skipn (k - 1) lines))
+  else save_script m.
 
 (* What a store created by a new process holds after Load(): LoadFromFile returns false and leaves
    the (empty) map alone when the file does not exist. *)
